@@ -1042,6 +1042,10 @@ func writeEvidence(prop string, pc propConf, tier string, seed uint64, t Summary
 		"wall_s":     wall,
 		"violations": newViol,
 	}
+	if *fRepo != "/repo" {
+		// a scratch tree (seeded change): evidence files describe runs against /repo only
+		return
+	}
 	jb, _ := json.MarshalIndent(ev, "", " ")
 	os.MkdirAll(filepath.Join(verifDir, "evidence"), 0o755)
 	if err := os.WriteFile(filepath.Join(verifDir, "evidence", prop+".json"), jb, 0o644); err != nil {
